@@ -358,6 +358,10 @@ OPTIONAL_TABLES = ["edge_node", "face_edge", "edge_face", "face_face"]
 def ugrid_encoding(draw, supply=None, coords_as=None, allow_transpose=True, dtypes=("i4", "i4", "i8", "i2")):
     if supply is None:
         supply = [t for t in OPTIONAL_TABLES if draw(st.booleans())]
+    if ("face_edge" in supply or "edge_face" in supply) and "edge_node" not in supply:
+        # edge indexes are only defined by the edge-node table: a mesh that refers to edges
+        # must say what they are (UGRID conventions)
+        supply = ["edge_node"] + list(supply)
     transposed = []
     if allow_transpose:
         transposed = [t for t in ["face_node"] + list(supply) if draw(st.integers(0, 3)) == 0]
